@@ -110,6 +110,7 @@ TraceStep ==
   \/ IsEvent("JobWaitReturn") /\ JobWaitReturn(Ev.args.j) /\ s.result[Ev.args.j] = Ev.args.r
   \/ IsEvent("Die") /\ Running /\ (IF Ev.args.at = "spawned" THEN DieAfterSpawn(Ev.args.j) ELSE Die)
   \/ IsEvent("Start") /\ Restart
+  \/ IsEvent("StartSame") /\ NewXp
   \/ IsEvent("RmDone") /\ RmDone(Ev.args.n)
   \/ IsEvent("Internal") /\ UNCHANGED vars
   \/ IsEvent("End") /\ GoodEnd /\ UNCHANGED vars
